@@ -418,6 +418,10 @@ def check(prop, tier):
             c.run_miri(n, 1 if tier == 'quick' else min(16, THREADS))
         else:
             c.run_plain(sub, kind, n)
+            if sub == 'simd' and 'simd' in c.dead:
+                # the assertion-carrying simd build was killed: look at the same kernels without assertions
+                order.append('simd-nd')
+                c.run_plain('simd-nd', kind, n)
     if c.rc == 2:
         return 2
     if c.rc == 0 and not c.parts:
